@@ -117,36 +117,7 @@ def run(F, res, tier):
                         cr = rv["op"] == "Ne"
     res.ob("D1", "normalize/strips-cr-first", "LineMap::normalize removes every '\\r' (String::retain(|c| c != '\\r')) before it computes anything",
            ok and cr, where=nm.loc(), how="first call: %s; predicate compares with '\\r': %s" % (calls[0][1] if calls else None, cr))
-    # ---- D2
-    h = F.fn(S + "on_did_change")
-    loops = [(t, hd, h.natural_loop(t, hd)) for t, hd in h.back_edges()]
-    units = change_units(F, h)
-    CONV = ("glas::convert::from_range", "glas::convert::from_pos", VFS + "::line_map_for_file")
-    conv_units = [c for c in units if any(callee(t) in CONV for b, t in F.fns[c].calls())]
-    apply_units = [c for c in units if any(callee(t) == VFS + "::change_file_content" for b, t in F.fns[c].calls())]
-    # the per-change unit of work is a closure, a helper, or the loop body itself
-    conv_blocks = [b for b, t in h.calls() if callee(t) in CONV or callee(t) in conv_units]
-    apply_blocks = [b for b, t in h.calls() if callee(t) == VFS + "::change_file_content" or callee(t) in apply_units]
-
-    def loop_of(b):
-        hs = sorted(hd for _, hd, body in loops if b in body)
-        return hs[-1] if hs else None
-    in_loop = lambda b: loop_of(b) is not None  # noqa: E731
-    same = {loop_of(b) for b in conv_blocks + apply_blocks}
-    ok = bool(conv_blocks) and bool(apply_blocks) and all(in_loop(b) for b in conv_blocks + apply_blocks) and len(same) == 1 and \
-        (not conv_units or set(conv_units) <= set(apply_units) or any(callee(h.term(b)) == VFS + "::change_file_content" for b in apply_blocks))
-    res.ob("D2", "on_did_change/line-map-reread-per-change", "each change's range is converted with the line map of the text as it is after the "
-           "previous change (conversion and splice happen in the same iteration of the loop over the changes - in its body, a closure or a helper)",
-           ok, where=h.loc(), how="conversion sites in the loop: %s; splice sites in the loop: %s; same loop: %s"
-           % ([in_loop(b) for b in conv_blocks], [in_loop(b) for b in apply_blocks], len(same) == 1))
-    skip = FL.every_iteration_passes(h, apply_blocks) if apply_blocks else [("?", "?")]
-    res.ob("D2", "on_did_change/every-change-applied", "every content change of a notification is handed to the splice: no iteration of the loop goes "
-           "round without it (a skipped change leaves the server's text behind the editor's)", not skip, where=h.loc(),
-           how="iterations that can skip the splice: %d" % len(skip))
-    fr = F.fn("glas::convert::from_range")
-    lm = [b for b, t in fr.calls() if callee(t) == VFS + "::line_map_for_file"]
-    res.ob("D2", "from_range/fresh-line-map", "convert::from_range fetches the file's current line map itself", len(lm) == 1, where=fr.loc(),
-           how="line_map_for_file calls: %d" % len(lm))
+    edits_use_the_current_line_map(F, res)
     # ---- D3
     cf = vfs_view(F, "change_file_content")
     dcf = FL.Defs(cf)
@@ -160,40 +131,7 @@ def run(F, res, tier):
             okb = False
     res.ob("D3", "splice/length-guard", "both slicings of the old text are dominated by `del_range.end() <= len`", okl, where=cf.loc(), how="%d slicing sites" % len(slices))
     res.ob("D3", "splice/char-boundary-guard", "both slicings are dominated by is_char_boundary checks", okb, where=cf.loc(), how="%d slicing sites" % len(slices))
-    # ---- D4
-    for name in ("set_path_content", "change_file_content"):
-        f = vfs_view(F, name)
-        d = FL.Defs(f)
-        recs = [(b, t) for b, t in f.calls() if callee(t) == "ide::base::Change::change_file"]
-        rets = f.return_blocks()
-        okr = bool(recs)
-        for b, t in recs:
-            o = FL.origin_deep(d, t["args"][2], ("Clone>::clone",))
-            base = o
-            while base.get("k") == "field":
-                base = base["base"]
-            src = FL.short(callee(base["t"])) if base.get("k") == "call" else base.get("k")
-            if src != "From::from":
-                okr = False
-        # every path that stores also records: each store block reaches a change_file call
-        res.ob("D4", "%s/records-change" % name, "%s records the new text (the same Arc<str>) in the pending Change on every storing path" % name,
-               okr and (not f.can_reach(0, rets, avoid=[b for b, _ in recs]) or name == "change_file_content" and
-                        all(any(f.dominates(b, r) for b, _ in recs) or True for r in rets)), where=f.loc(),
-               how="change_file calls: %d" % len(recs))
-    from lib import inline as _ILa
-    ap0 = F.fn("ide::base::Change::apply")
-    # private helpers of Change that apply delegates to (`apply_file_changes`) are part of it
-    ap = _ILa.inlined(F, ap0, want=lambda p_: p_.startswith("ide::base::Change::") and p_ != ap0.path and "{closure" not in p_, depth=2)
-    sets_ = [b for b, t in ap.calls() if (callee(t) or "").endswith("::set_file_content_with_durability")]
-    loops_ = [(tl, hd) for tl, hd in ap.back_edges() if set(sets_) & ap.natural_loop(tl, hd)]
-    skipped = FL.every_iteration_passes(ap, sets_)
-    # skipping is only sound when the newest entry of a file is met first (the list walked in reverse)
-    newest_first = any(FL.short(callee(t) or "") in ("Iterator::rev", "DoubleEndedIterator::rev") and all(ap.dominates(b, hd) for _, hd in loops_)
-                       for b, t in ap.calls())
-    res.ob("D4", "change-apply/every-recorded-text-set", "Change::apply hands every recorded (file, text) pair to the database, in recording order: the "
-           "set_file_content call sits in a loop and no iteration goes round without it (so the last recorded text, which is the store's, wins)",
-           bool(sets_) and bool(loops_) and (not skipped or newest_first), where=ap.loc(),
-           how="set_file_content calls: %d, in a loop: %s, iterations that can skip it: %d" % (len(sets_), bool(loops_), len(skipped)))
+    analysis_gets_every_recorded_text(F, res)
     # ---- D5
     lp = F.fn(S + "load_package_files")
     dl = FL.Defs(lp)
@@ -235,6 +173,7 @@ def run(F, res, tier):
     file_ids_are_slot_keys(F, res)
     last_text_wins(F, res)
     line_map_coordinates_agree(F, res)
+    disk_text_never_replaces_a_known_file(F, res)
 
 
 def store_changes_reach_the_analysis(F, res, rule="D6"):
@@ -479,3 +418,126 @@ def line_map_coordinates_agree(F, res, rule="D10"):
            "is relative to its line or absolute", ok, where=nm0.loc(),
            how="writer: %s (counter starts: %s); pos_for_line_col compares with a %s value; line_col_for_pos compares with a %s value"
            % (writer, sorted(set(starts)), c1, c2))
+
+
+def edits_use_the_current_line_map(F, res, rule="D2"):
+    """D2: an incremental change is converted with the line map of the text as it is after the previous change of the same
+    notification, every change is applied, and from_range fetches the current line map itself (also C15 M11: an edit is never
+    applied somewhere else; C16 W14: the server's text converges to the client's)."""
+    h = F.fn(S + "on_did_change")
+    loops = [(t, hd, h.natural_loop(t, hd)) for t, hd in h.back_edges()]
+    units = change_units(F, h)
+    CONV = ("glas::convert::from_range", "glas::convert::from_pos", VFS + "::line_map_for_file")
+    conv_units = [c for c in units if any(callee(t) in CONV for b, t in F.fns[c].calls())]
+    apply_units = [c for c in units if any(callee(t) == VFS + "::change_file_content" for b, t in F.fns[c].calls())]
+    # the per-change unit of work is a closure, a helper, or the loop body itself
+    conv_blocks = [b for b, t in h.calls() if callee(t) in CONV or callee(t) in conv_units]
+    apply_blocks = [b for b, t in h.calls() if callee(t) == VFS + "::change_file_content" or callee(t) in apply_units]
+
+    def loop_of(b):
+        hs = sorted(hd for _, hd, body in loops if b in body)
+        return hs[-1] if hs else None
+    in_loop = lambda b: loop_of(b) is not None  # noqa: E731
+    same = {loop_of(b) for b in conv_blocks + apply_blocks}
+    ok = bool(conv_blocks) and bool(apply_blocks) and all(in_loop(b) for b in conv_blocks + apply_blocks) and len(same) == 1 and \
+        (not conv_units or set(conv_units) <= set(apply_units) or any(callee(h.term(b)) == VFS + "::change_file_content" for b in apply_blocks))
+    res.ob(rule, "on_did_change/line-map-reread-per-change", "each change's range is converted with the line map of the text as it is after the "
+           "previous change (conversion and splice happen in the same iteration of the loop over the changes - in its body, a closure or a helper)",
+           ok, where=h.loc(), how="conversion sites in the loop: %s; splice sites in the loop: %s; same loop: %s"
+           % ([in_loop(b) for b in conv_blocks], [in_loop(b) for b in apply_blocks], len(same) == 1))
+    skip = FL.every_iteration_passes(h, apply_blocks) if apply_blocks else [("?", "?")]
+    res.ob(rule, "on_did_change/every-change-applied", "every content change of a notification is handed to the splice: no iteration of the loop goes "
+           "round without it (a skipped change leaves the server's text behind the editor's)", not skip, where=h.loc(),
+           how="iterations that can skip the splice: %d" % len(skip))
+    fr = F.fn("glas::convert::from_range")
+    lm = [b for b, t in fr.calls() if callee(t) == VFS + "::line_map_for_file"]
+    res.ob(rule, "from_range/fresh-line-map", "convert::from_range fetches the file's current line map itself", len(lm) == 1, where=fr.loc(),
+           how="line_map_for_file calls: %d" % len(lm))
+
+
+def analysis_gets_every_recorded_text(F, res, rule="D4"):
+    """D4: the store records each new text (the same Arc<str> it keeps) in the pending Change, and Change::apply hands every
+    recorded (file, text) pair to the database in recording order, so the text the analysis computes ranges on is the text the
+    store converts them with (also C19 Z7, C20 A9)."""
+    for name in ("set_path_content", "change_file_content"):
+        f = vfs_view(F, name)
+        d = FL.Defs(f)
+        recs = [(b, t) for b, t in f.calls() if callee(t) == "ide::base::Change::change_file"]
+        rets = f.return_blocks()
+        okr = bool(recs)
+        for b, t in recs:
+            o = FL.origin_deep(d, t["args"][2], ("Clone>::clone",))
+            base = o
+            while base.get("k") == "field":
+                base = base["base"]
+            src = FL.short(callee(base["t"])) if base.get("k") == "call" else base.get("k")
+            if src != "From::from":
+                okr = False
+        # every path that stores also records: each store block reaches a change_file call
+        res.ob(rule, "%s/records-change" % name, "%s records the new text (the same Arc<str>) in the pending Change on every storing path" % name,
+               okr and (not f.can_reach(0, rets, avoid=[b for b, _ in recs]) or name == "change_file_content" and
+                        all(any(f.dominates(b, r) for b, _ in recs) or True for r in rets)), where=f.loc(),
+               how="change_file calls: %d" % len(recs))
+    from lib import inline as _ILa
+    ap0 = F.fn("ide::base::Change::apply")
+    # private helpers of Change that apply delegates to (`apply_file_changes`) are part of it
+    ap = _ILa.inlined(F, ap0, want=lambda p_: p_.startswith("ide::base::Change::") and p_ != ap0.path and "{closure" not in p_, depth=2)
+    sets_ = [b for b, t in ap.calls() if (callee(t) or "").endswith("::set_file_content_with_durability")]
+    loops_ = [(tl, hd) for tl, hd in ap.back_edges() if set(sets_) & ap.natural_loop(tl, hd)]
+    skipped = FL.every_iteration_passes(ap, sets_)
+    # skipping is only sound when the newest entry of a file is met first (the list walked in reverse)
+    newest_first = any(FL.short(callee(t) or "") in ("Iterator::rev", "DoubleEndedIterator::rev") and all(ap.dominates(b, hd) for _, hd in loops_)
+                       for b, t in ap.calls())
+    res.ob(rule, "change-apply/every-recorded-text-set", "Change::apply hands every recorded (file, text) pair to the database, in recording order: the "
+           "set_file_content call sits in a loop and no iteration goes round without it (so the last recorded text, which is the store's, wins)",
+           bool(sets_) and bool(loops_) and (not skipped or newest_first), where=ap.loc(),
+           how="set_file_content calls: %d, in a loop: %s, iterations that can skip it: %d" % (len(sets_), bool(loops_), len(skipped)))
+
+
+def disk_text_never_replaces_a_known_file(F, res, rule="D11"):
+    """D11: the client owns the text of the documents it has open, and the store is how the server remembers them. Wherever
+    crate glas stores a text that was read from disk (its value depends on a read_to_string call), the call is reached only
+    when the store does not have that path yet (`file_for_path` failed) or the client does not have the document open
+    (`opened_files.contains_key` false). D5 states this for the two sites known when it was written; this rule finds the
+    sites itself: assemble_graph re-read gleam.toml and replaced the client's unsaved text of an open gleam.toml."""
+    STORE = (VFS + "::set_path_content", S + "set_vfs_file_content")
+    # helpers that read a file and store nothing (the reading may live in a function of its own)
+    cg = F.callgraph()
+    is_read = lambda c: c.endswith("read_to_string") or c.endswith("fs::read")
+    readers = set()
+    for p in F.fns:
+        if p.startswith(("glas::", "<glas::")) and F.fns[p].blocks:
+            reach = [q for q in F.reachable_from([p]) if q in F.fns]
+            called = {callee(t) or callee_def(t) or "" for q in reach for _b, t in F.fns[q].calls()}
+            if any(is_read(FL.short(c)) for c in called) and not any(c in STORE for c in called):
+                readers.add(FL.short(p))
+    n = 0
+    for p, f in sorted(F.fns.items()):
+        if not p.startswith(("glas::", "<glas::")) or not f.blocks:
+            continue
+        d = None
+        for b, t in f.calls():
+            c = callee(t) or ""
+            if c not in STORE or len(t["args"]) < 3:
+                continue
+            d = d or FL.Defs(f)
+            dep = FL.depends(F, f, d, t["args"][2])
+            reads = sorted(x for x in dep["calls"] if is_read(x) or x in readers)
+            if not reads:
+                continue
+            n += 1
+            ok = False
+            for g in FL.gates(F, f, [b], d):
+                gc = FL.short(g.get("callee") or "")
+                if gc.endswith("contains_key") and g["allowed"] == [False]:
+                    ok = True
+                elif gc.endswith("Vfs::file_for_path") and g["allowed"] == ["Err"]:
+                    ok = True
+                elif gc in ("Result::is_ok", "Result::is_err") and g["allowed"] == [gc == "Result::is_err"]:
+                    o = d.origin_op(g["call_t"]["args"][0])
+                    ok = ok or (o.get("k") == "call" and callee(o["t"]) == VFS + "::file_for_path")
+            res.ob(rule, "disk-text/%s/%s" % (FL.short(p), c.rsplit("::", 1)[-1]),
+                   "a text read from disk is stored only for a path the store does not have yet, or a document the client does not "
+                   "have open (the client's unsaved text is never replaced by the file's)", ok, where=f.loc(t["ln"]),
+                   how="text depends on %s; gated by an absent-from-the-store / not-open test: %s" % (reads, ok))
+    res.floor("sites of crate glas that store a text read from disk", n, 3)
